@@ -6,11 +6,17 @@ function samlangGeneratedWebAssemblyLoader(bytes, builtinsPatch = () => ({})) {
   function gcArrayToString(arr) {
     if (!instance) throw new Error('Instance not initialized');
     const len = instance.exports.__strLen(arr);
-    const codes = [];
+    // In chunks: the number of arguments of one call is limited.
+    let result = '';
+    let codes = [];
     for (let i = 0; i < len; i++) {
       codes.push(instance.exports.__strGet(arr, i));
+      if (codes.length === 8192) {
+        result += String.fromCharCode(...codes);
+        codes = [];
+      }
     }
-    return String.fromCharCode(...codes);
+    return result + String.fromCharCode(...codes);
   }
 
   const builtins = {
